@@ -66,6 +66,7 @@ func (w *WalletManager) constructTxIn(inputs []*TxIn, lockTime uint64) (*wire.Ms
 	mtx := &wire.MsgTx{}
 	totalValue := massutil.ZeroAmount()
 	senders := make([]utils.PkScript, 0, len(inputs))
+	seen := make(map[wire.OutPoint]struct{}, len(inputs))
 	for _, input := range inputs {
 		txHash, err := wire.NewHashFromStr(input.TxId)
 		if err != nil {
@@ -74,6 +75,11 @@ func (w *WalletManager) constructTxIn(inputs []*TxIn, lockTime uint64) (*wire.Ms
 		}
 
 		prevOut := wire.NewOutPoint(txHash, input.Vout)
+		if _, dup := seen[*prevOut]; dup {
+			logging.CPrint(logging.ERROR, "duplicate input", logging.LogFormat{"txid": input.TxId, "vout": input.Vout})
+			return nil, nil, massutil.ZeroAmount(), ErrInvalidParameter
+		}
+		seen[*prevOut] = struct{}{}
 		txIn := wire.NewTxIn(prevOut, nil)
 		if lockTime != 0 {
 			txIn.Sequence = wire.MaxTxInSequenceNum - 1 // sequence lock disabled
